@@ -84,11 +84,18 @@ func (C18) Events(env world.Env, mm mc.Model) []string {
 			add("Send:%s:%s:c2", x, t)
 		}
 	}
+	// the sender spells its own (valid bech32) address in capitals
+	for _, x := range c18Who {
+		for _, t := range []string{"A", "B", "C"} {
+			add("SendUpper:%s:%s:c1", x, t)
+		}
+	}
 	for _, x := range c18Who {
 		for _, t := range targets {
 			add("Block:%s:%s", x, t)
 		}
 		add("Block:%s:%s", x, strings.Join(others(x), "+"))
+		add("BlockUpper:%s:%s", x, others(x)[0]) // the blocker spells its own address in capitals
 	}
 	// deletes: every existing (from, time) identity, tried by every principal, plus crafted sender strings
 	ids := map[string]bool{}
@@ -144,11 +151,15 @@ func (C18) Apply(env world.Env, mm mc.Model, ev string) mc.Step {
 		}
 		m.Blocks++
 		st.Outcome = "block"
-	case "Send":
+	case "Send", "SendUpper":
 		sender, to := p[1], resolve(p[2])
 		contents := `{"msg":"` + p[3] + `"}`
 		now := env.Ctx().BlockTime().UnixMicro()
-		res := env.Deliver(notiftypes.NewMsgCreateNotification(w.A(sender).Bech, target(p[2]), contents, nil))
+		from := w.A(sender).Bech
+		if p[0] == "SendUpper" {
+			from = strings.ToUpper(from)
+		}
+		res := env.Deliver(notiftypes.NewMsgCreateNotification(from, target(p[2]), contents, nil))
 		expect := !m.Blocked[to][sender]
 		st.Exercised = append(st.Exercised, "send")
 		if !expect {
@@ -159,14 +170,19 @@ func (C18) Apply(env world.Env, mm mc.Model, ev string) mc.Step {
 		}
 		if res.OK() {
 			st.Outcome = "ok"
+			// the sender is an account: the spelling of its address (capitals are valid bech32) does not matter
 			m.Inbox[to][sender+"|"+strconv.FormatInt(now, 10)] = contents
 		}
-	case "Block":
+	case "Block", "BlockUpper":
 		var list []string
 		for _, t := range strings.Split(p[2], "+") {
 			list = append(list, target(t))
 		}
-		res := env.Deliver(notiftypes.NewMsgBlockSenders(w.A(p[1]).Bech, list...))
+		blocker := w.A(p[1]).Bech
+		if p[0] == "BlockUpper" {
+			blocker = strings.ToUpper(blocker)
+		}
+		res := env.Deliver(notiftypes.NewMsgBlockSenders(blocker, list...))
 		st.Exercised = append(st.Exercised, "block")
 		if res.OK() {
 			st.Outcome = "ok"
@@ -221,7 +237,11 @@ func (C18) Apply(env world.Env, mm mc.Model, ev string) mc.Step {
 		}
 		var got, want []string
 		for _, n := range resp.Notifications {
-			got = append(got, fmt.Sprintf("to=%s from=%s time=%d contents=%s", w.NameOf(n.To), w.NameOf(n.From), n.Time, n.Contents))
+			from := w.NameOf(n.From)
+			if lower := strings.ToLower(n.From); lower != n.From && strings.ToUpper(n.From) == n.From {
+				from = w.NameOf(lower)
+			}
+			got = append(got, fmt.Sprintf("to=%s from=%s time=%d contents=%s", w.NameOf(n.To), from, n.Time, n.Contents))
 		}
 		for id, c := range m.Inbox[x] {
 			ft := strings.Split(id, "|")
